@@ -488,6 +488,16 @@ inductive PairRet where
   | list (bs : List Boxed)
   deriving DecidableEq, Repr
 
+/-- `[]interface{}` -/
+def isAnySlice (t : Ty) : Bool := decide (t = .slice (.iface []))
+
+/-- A bare value is written `.one`; Go cannot tell a bare value whose dynamic type is `[]interface{}` from the list
+    form (`v.Return.([]interface{})` succeeds), so such a value IS the list form: goom's documented flattening
+    ("如果是多参可使用[]interface{}", mocker.go:554).  `.one` therefore never carries a `[]interface{}`. -/
+def PairRet.WF : PairRet → Prop
+  | .one (some (t, _)) => isAnySlice t = false
+  | _ => True
+
 /-- `when.go:181-184` (Matches) and `:200-203` (Returns):
     `results, ok := v.Return.([]interface{}); if !ok { results = []interface{}{v.Return} }` —
     a bare value, **nil included**, is a single result. -/
